@@ -107,6 +107,7 @@ func createSession(port int) (sessInfo, int, error) {
 
 type wsClient struct {
 	conn   *websocket.Conn
+	hold   sync.Mutex // held by the driver while this client is to stop reading its socket
 	mu     sync.Mutex
 	log    []protocol.Envelope
 	closed bool
@@ -125,6 +126,8 @@ func dialWS(port int, code, peer, role string) (*wsClient, int, error) {
 	cl := &wsClient{conn: c}
 	go func() {
 		for {
+			cl.hold.Lock()
+			cl.hold.Unlock()
 			_, data, err := c.ReadMessage()
 			if err != nil {
 				return
@@ -156,7 +159,7 @@ type c10client struct {
 
 func runC10(cfg config) *hx.Report {
 	rep := hx.NewReport("C10")
-	rep.Rule = "scripts over 2-3 sessions x up to 6 WebSocket clients against the real thruserv binary: connects (fresh and duplicate peer ids, both roles), addressed / broadcast frames with spoofed `from` and foreign `session_id`, unknown addressees, malformed JSON, invalid envelopes, binary frames, disconnects; run sequentially to quiescence. Non-trivial = at least one frame was routed between two clients; distinct by script"
+	rep.Rule = "scripts over 2-3 sessions x up to 6 WebSocket clients against the real thruserv binary: connects (fresh and duplicate peer ids, both roles), addressed / broadcast frames with spoofed `from` and foreign `session_id`, unknown addressees, malformed JSON, invalid envelopes, binary frames, disconnects; run sequentially to quiescence; plus (oracle only) a recipient that stops reading while 900 large messages are addressed to it and then reads again: what it receives must be in order, without duplicates, from the true author. Non-trivial = at least one frame was routed between two clients; distinct by script"
 	cf := &hx.CasesFile{Dir: cfg.out, Name: "C10", Module: "C10", Imports: []string{"Model.Hub", "Model.Serv", "Corr.C10"}, PerShard: 10}
 	bin := filepath.Join(cfg.out, "thruserv")
 	if err := buildBinary("cmd/thruserv", bin); err != nil {
@@ -484,7 +487,105 @@ func runC10(cfg config) *hx.Report {
 		time.Sleep(20 * time.Millisecond)
 	}
 	cf.Close()
+	c10stalled(sp.port, rep, cfg)
 	return rep
+}
+
+// c10stalled (oracle only): a recipient stops reading its socket while an author keeps
+// addressing it - far more than the socket buffers and the hub's per-recipient queue hold -
+// and then reads again.  Whatever it then receives from that author must be in the order
+// sent, without duplicates, and carry the author's identity (C10: "never duplicated or
+// reordered"; losses are allowed here, the recipient was not reading).
+func c10stalled(port int, rep *hx.Report, cfg config) {
+	rounds := 1
+	if cfg.tier == "thorough" {
+		rounds = 4
+	}
+	for round := 0; round < rounds; round++ {
+		s, _, err := createSession(port)
+		if err != nil {
+			rep.Violate("create-session", err.Error(), nil)
+			return
+		}
+		a, _, err1 := dialWS(port, s.Code, "author", "sender")
+		b, _, err2 := dialWS(port, s.Code, "stalled", "receiver")
+		if err1 != nil || err2 != nil {
+			rep.Violate("stalled-recipient:connect", fmt.Sprint(err1, err2), nil)
+			return
+		}
+		time.Sleep(50 * time.Millisecond)
+		b.hold.Lock()
+		const n = 900
+		pad := strings.Repeat("x", 40000+round*5000)
+		for i := 1; i <= n; i++ {
+			env := protocol.Envelope{V: 1, Type: "offer", MsgID: fmt.Sprintf("q%d", i), To: "stalled"}
+			env.Payload, _ = json.Marshal(map[string]any{"seq": i, "pad": pad})
+			raw, _ := json.Marshal(env)
+			if err := a.conn.WriteMessage(websocket.TextMessage, raw); err != nil {
+				rep.Violate("stalled-recipient:author-write", err.Error(), nil)
+				break
+			}
+		}
+		// a message to itself comes back once the server has handled everything before it
+		self, _ := json.Marshal(protocol.Envelope{V: 1, Type: "offer", MsgID: "self", To: "author"})
+		a.conn.WriteMessage(websocket.TextMessage, self)
+		for i := 0; i < 2000; i++ {
+			a.mu.Lock()
+			got := false
+			for _, e := range a.log {
+				if e.MsgID == "self" {
+					got = true
+				}
+			}
+			a.mu.Unlock()
+			if got {
+				break
+			}
+			time.Sleep(5 * time.Millisecond)
+		}
+		b.hold.Unlock()
+		last, stable := -1, 0
+		for i := 0; i < 2000 && stable < 40; i++ {
+			if c := b.count(); c == last {
+				stable++
+			} else {
+				stable, last = 0, c
+			}
+			time.Sleep(5 * time.Millisecond)
+		}
+		b.mu.Lock()
+		var seqs []int
+		for _, e := range b.log {
+			if e.Type != "offer" {
+				continue
+			}
+			var pl struct {
+				Seq int `json:"seq"`
+			}
+			e.DecodePayload(&pl)
+			if e.From != "author" {
+				rep.Violate("stalled-recipient:from", fmt.Sprintf("message %d reached the recipient with from=%q", pl.Seq, e.From), map[string]any{"scenario": "stalled-recipient"})
+			}
+			seqs = append(seqs, pl.Seq)
+		}
+		b.mu.Unlock()
+		rep.Evaluations++
+		rep.Count("stalled-recipient")
+		rep.Distribution["stalled-recipient:received"] += len(seqs)
+		if len(seqs) < n {
+			rep.Count("stalled-recipient:overflowed")
+			rep.Nontrivial(fmt.Sprintf("stalled:%d:%d", round, len(seqs)))
+		}
+		for i := 1; i < len(seqs); i++ {
+			if seqs[i] <= seqs[i-1] {
+				rep.Violate("stalled-recipient:order", fmt.Sprintf("after a stall the recipient saw the author's message #%d after #%d (position %d of %d received, %d sent)", seqs[i], seqs[i-1], i+1, len(seqs), n),
+					map[string]any{"scenario": "stalled-recipient: the recipient stops reading, the author addresses it 900 messages of ~40 KB, the recipient reads again", "received": len(seqs)})
+				break
+			}
+		}
+		a.conn.Close()
+		b.conn.Close()
+	}
 }
 
 func init() { runners["C10"] = runC10 }
